@@ -128,6 +128,22 @@ struct variant {
   using apply = typename concat_type_lists_t<Lists...>::template apply<Variant>;
 };
 
+template <typename... Values>
+using is_done_signal = std::is_same<
+    type_list<remove_cvref_t<Values>...>,
+    type_list<tag_t<set_done>>>;
+
+// Whether Source may carry a materialized set_done in its value channel: by
+// default, whether one of its value overloads is (tag_t<set_done>); a source
+// that knows better (materialize) says so through `materializes_done`.
+template <typename Source, typename = void>
+struct carries_done
+  : sender_value_types_t<Source, std::disjunction, is_done_signal> {};
+
+template <typename Source>
+struct carries_done<Source, std::void_t<decltype(Source::materializes_done)>>
+  : std::bool_constant<Source::materializes_done> {};
+
 template <typename Source>
 struct _sender {
   class type;
@@ -173,7 +189,10 @@ public:
       variant<append_error_types<Variant>::template apply>::template apply,
       tuple<tag_t<set_error>, single_type_t>::template apply>;
 
-  static constexpr bool sends_done = sender_traits<Source>::sends_done;
+  // A materialized set_done in the source's value channel is delivered as
+  // set_done, so done can be sent even if the source itself never sends it.
+  static constexpr bool sends_done =
+      sender_traits<Source>::sends_done || carries_done<Source>::value;
 
   static constexpr blocking_kind blocking = sender_traits<Source>::blocking;
 
